@@ -257,6 +257,19 @@ CHECKS = {
         design_ref="DESIGN.md 5 C09",
         note=NOTE_COMMON + " Atoms are identified by their unique lateral position; numeric tolerance 2e-5.",
     ),
+    "C08": dict(
+        text=("TLC checks DeltasImpl (superpose_deltas transcribed over exact rationals: floor, fractional part, four scatter "
+              "targets wrapped per axis, scatter-add) for every atom position (pixel x {0, 3/8, 7/8} per axis), six shifts (unit, "
+              "wrapping, beyond the cell, negative) and four repetitions on a small periodic grid: translate = roll, supercell = "
+              "tiled unit cell, mass conserved (5e3 cases quick, 5e4 thorough); it emits position/shift/repetition classes that "
+              "are instantiated on a 12 x 16 grid with real Potential objects (infinite projection throughout, finite projection "
+              "and thermal sigmas for subsets, positions left outside the cell or wrapped), PotentialArray.tile and "
+              "CrystalPotential; DeltasTrace.tla bounds the logged deviations translated-vs-rolled, supercell-vs-tiled and the "
+              "slice means under random sub-pixel translations."),
+        technique="TLA+ exact-rational model of atom placement on the periodic grid (TLC) + TLC-enumerated classes on real potentials + TLC trace validation",
+        design_ref="DESIGN.md 5 C08",
+        note=NOTE_COMMON + " The convolution with the atomic form factor is checked numerically only (tolerance 5e-5).",
+    ),
 }
 
 NOT_APPLICABLE = {
